@@ -143,14 +143,17 @@ def run(tier, seed, broken_proof=False):
         n = rng.randrange(1, 5 if tier == "quick" else 6)
         sig = common.ATOM_NAMES[:n]
         worlds = [bits(w) for w in itertools.product([False, True], repeat=n)]
-        hi = rng.choice([0, 0, 1, 2, 3])
+        hi = rng.choice([0, 0, 1, 2, 3, 6, 9])      # wide spreads: a candidate "rank + gamma of another conditional" can undercut a parameter-free one
         prior = [(w, rng.randrange(0, hi + 1)) for w in worlds]
         m = rng.randrange(1, 4)
         keys = rng.sample(range(1, 12), m)
         conds = []
+        shared = gen_lit(rng, n) if rng.random() < 0.3 else None      # conditionals with one antecedent interact in every world of it
         for k in keys:
             r = rng.random()
-            if r < 0.55:
+            if shared is not None:
+                conds.append((k, gen_lit(rng, n), shared if rng.random() < 0.8 else common.T))
+            elif r < 0.55:
                 conds.append((k, gen_lit(rng, n), gen_lit(rng, n)))
             else:
                 conds.append((k, gen_formula(rng, n, 1, 0.05), gen_formula(rng, n, 1, 0.05)))
